@@ -74,22 +74,23 @@ class MementoException(RuntimeError):
             module_name = match.group(2)
             name = match.group(3)
             if language == "python":
-                module = importlib.import_module(module_name)
-                ref = module
-                for part in name.split("."):
-                    ref = getattr(ref, part)
-                if not inspect.isclass(ref):
-                    return self
                 try:
+                    module = importlib.import_module(module_name)
+                    ref = module
+                    for part in name.split("."):
+                        ref = getattr(ref, part)
+                    if not inspect.isclass(ref):
+                        return self
                     # noinspection PyCallingNonCallable
                     return ref(
                         "{}. Original stack trace follows:\n{}".format(
                             self.message, self.stack_trace
                         )
                     )
-                except TypeError:
-                    # If we couldn't construct the exception (e.g. it has required parameters),
-                    # just return this as a MementoException
+                except Exception:
+                    # If we couldn't find the class (its module cannot be imported here, it was
+                    # defined inside a function, ...) or couldn't construct the exception (e.g. it
+                    # has required parameters), just return this as a MementoException
                     return self
             else:
                 # If this is an exception from another language, return this as a MementoException
